@@ -139,8 +139,14 @@ struct StaticCastOverflowImpl<Source, Dest, OverflowSituation::FLOAT_TO_ANYTHING
         // It's pretty safe to assume that `Source` can hold the limits of `Dest`, because otherwise
         // this would have been categorized as `DEST_BOUNDS_CONTAIN_SOURCE_BOUNDS` rather than
         // `FLOAT_TO_ANYTHING`.
+        //
+        // For an integral `Dest`, `max()` is `2^N - 1`, which `Source` may round *up* to `2^N` (e.g.,
+        // `float` and `INT32_MAX`); `2^N` itself does not fit.  `max() / 2 + 1` is the power of two
+        // `2^(N-1)`, so it (and its double) is exactly representable in every floating point type.
         return (x < static_cast<Source>(std::numeric_limits<Dest>::lowest())) ||
-               (x > static_cast<Source>(std::numeric_limits<Dest>::max()));
+               (x > static_cast<Source>(std::numeric_limits<Dest>::max())) ||
+               (std::is_integral<Dest>::value &&
+                (x >= static_cast<Source>(std::numeric_limits<Dest>::max() / 2 + 1) * Source{2}));
     }
 };
 
